@@ -25,7 +25,7 @@ BOUNDS = {
              'duplicates occur), through domain split, recipient split and '
              'both in either order (4 recipients: domain split then recipient '
              'split); chain cells: every chain of <=2 policies '
-             'out of 8 (recipient split, domain split, forward with 3 rule '
+             'out of 9 (recipient split, domain split, forward with 4 rule '
              'sets, Date, Message-Id, Received, pass-through test policy) '
              'over 5 recipient lists from a menu, Date/Message-Id present or '
              'absent, header-less message',
@@ -53,8 +53,10 @@ RULES = [
     [(r'^(.*)@list\.(.*)$', r'\1@\2', 0), (r'^v@', 'vv@', 0)],
     [(r'^postmaster$', 'root@localhost', 0), (r'^a@x\.com$', '', 0),
      (r'a', 'A', 1)],
+    # the rule that empties the recipient is the last (only) one tried
+    [(r'^postmaster$', '', 0)],
 ]
-POLICIES = ['rsplit', 'dsplit', 'fwd0', 'fwd1', 'fwd2', 'date', 'msgid',
+POLICIES = ['rsplit', 'dsplit', 'fwd0', 'fwd1', 'fwd2', 'fwd3', 'date', 'msgid',
             'received', 'passthru']
 
 
